@@ -10,9 +10,10 @@ class Root:
 ```
 -/
 import XsdataModel.Bind.Parse
+import XsdataModel.Fault.Dict
 
 namespace Proofs.C15.Witness
-open Py Xs.Bind
+open Py Xs.Bind Xs.Fault
 
 /-- an environment whose `is_ncname` rejects the empty string (as the real one does) -/
 def env : BEnv := ⟨Env.ascii, fun s => !s.isEmpty && s.all (fun c => c.isAlphanum || c = '_'), fun s => !s.isEmpty⟩
@@ -61,5 +62,52 @@ def docMistyped : Tree := el "Root" [] none [el "x" [] (some "12x") []]
 def docColon : Tree := el "Root" [(xsiType, [':'])] none []
 
 def strict : ParserConfig := { failOnConverterWarnings := true }
+
+
+/-! ### JSON side
+
+```python
+@dataclass
+class Doc:
+    x: Optional[int] = field(default=None, metadata={"type": "Element"})
+    t: list[int] = field(default_factory=list, metadata={"type": "Element", "tokens": True})
+    at: dict[str, str] = field(default_factory=dict, metadata={"type": "Attributes"})
+    b: list[str] = field(default_factory=list, metadata={"type": "Element", "wrapper": "items"})
+```
+-/
+
+def jX : XmlVar := { varX with required := false }
+def jT : XmlVar := { varX with index := 2, name := ['t'], localName := ['t'], qname := ['t'], tokens := true,
+                               required := false, default := .listFactory }
+def jAt : XmlVar := { varX with index := 3, name := "at".toList, localName := "at".toList, qname := "at".toList,
+                                types := [.prim .str], required := false, default := .dictFactory, kind := .attributes,
+                                namespaces := ["##any".toList] }
+def jB : XmlVar := { varX with index := 4, name := ['b'], localName := ['b'], qname := ['b'], types := [.prim .str],
+                               wrapperQName := some "items".toList, required := false, listElement := true,
+                               default := .listFactory }
+
+def metaDoc : XmlMeta :=
+  { clazz := "Doc".toList, qname := "Doc".toList, targetQName := some "Doc".toList, nillable := false,
+    text := none, choices := [], elements := [(['x'], [jX]), (['t'], [jT]), (['b'], [jB])], wildcards := [],
+    attributes := [], anyAttributes := [jAt], wrappers := [("items".toList, ['b'])] }
+
+/-- the same class without the `at` and `b` fields -/
+def metaPlain : XmlMeta := { metaDoc with clazz := "Plain".toList, elements := [(['x'], [jX]), (['t'], [jT])],
+                                          anyAttributes := [], wrappers := [] }
+
+def jctx : Ctx :=
+  { classes := [
+      { id := "Doc".toList, metas := [(none, metaDoc)], mro := ["Doc".toList], bases := [],
+        fields := [⟨['x'], true, some .none⟩, ⟨['t'], true, some (.list [])⟩, ⟨"at".toList, true, some (.attrs [])⟩,
+                   ⟨['b'], true, some (.list [])⟩] },
+      { id := "Plain".toList, metas := [(none, metaPlain)], mro := ["Plain".toList], bases := [],
+        fields := [⟨['x'], true, some .none⟩, ⟨['t'], true, some (.list [])⟩] }],
+    xsiIndex := [("Doc".toList, ["Doc".toList]), ("Plain".toList, ["Plain".toList])],
+    datatypes := [] }
+
+def o (kvs : List (String × J)) : J := .obj (kvs.map (fun kv => (kv.1.toList, kv.2)))
+
+def Doc : ClassId := "Doc".toList
+def Plain : ClassId := "Plain".toList
 
 end Proofs.C15.Witness
